@@ -9,31 +9,31 @@ open Rx Rx.Gen.SkipUntilThreads
 def absTSkipUntil (g : ShareObserverThreads) : St2 := .skipUntil g.observer.isSome g.skip
 
 theorem tieT_Su_a_next (g : ShareObserverThreads) (v : Val) :
-    (ShareObserverThreads.next g v).map (fun r => (absTSkipUntil r.1, r.2)) = some (St2.step (absTSkipUntil g) .a (.next v)) := by
+    (ShareObserverThreads.next g v).map (fun r => (absTSkipUntil r.1, r.2)) = some (Rs.lift (St2.step (absTSkipUntil g) .a (.next v))) := by
   rcases g with ⟨_ | _, _ | _⟩ <;>
     rs_tie [ShareObserverThreads.next, ShareObserverThreads.is_skipping, Rx.Gen.RcObserver.RcObserver.next, absTSkipUntil, St2.step, St2.guard]
 
 theorem tieT_Su_a_error (g : ShareObserverThreads) (e : Err) :
-    (ShareObserverThreads.error g e).map (fun r => (absTSkipUntil r.1, r.2)) = some (St2.step (absTSkipUntil g) .a (.error e)) := by
+    (ShareObserverThreads.error g e).map (fun r => (absTSkipUntil r.1, r.2)) = some (Rs.lift (St2.step (absTSkipUntil g) .a (.error e))) := by
   rcases g with ⟨_ | _, s⟩ <;>
     rs_tie [ShareObserverThreads.error, Rx.Gen.RcObserver.RcObserver.error, absTSkipUntil, St2.step, St2.guard]
 
 theorem tieT_Su_a_complete (g : ShareObserverThreads) :
-    (ShareObserverThreads.complete g).map (fun r => (absTSkipUntil r.1, r.2)) = some (St2.step (absTSkipUntil g) .a .complete) := by
+    (ShareObserverThreads.complete g).map (fun r => (absTSkipUntil r.1, r.2)) = some (Rs.lift (St2.step (absTSkipUntil g) .a .complete)) := by
   rcases g with ⟨_ | _, s⟩ <;>
     rs_tie [ShareObserverThreads.complete, Rx.Gen.RcObserver.RcObserver.complete, absTSkipUntil, St2.step, St2.guard]
 
 theorem tieT_Su_b_next (g : SkipUntilNotifierObserver) (v : Val) :
-    (SkipUntilNotifierObserver.next g v).map (fun r => (absTSkipUntil r.1, r.2)) = some (St2.step (absTSkipUntil g) .b (.next v)) := by
+    (SkipUntilNotifierObserver.next g v).map (fun r => (absTSkipUntil r.1, r.2)) = some (Rs.lift (St2.step (absTSkipUntil g) .b (.next v))) := by
   rcases g with ⟨_ | _, s⟩ <;>
     rs_tie [SkipUntilNotifierObserver.next, ShareObserverThreads.stop_skipping, absTSkipUntil, St2.step, St2.guard]
 
 theorem tieT_Su_b_error (g : SkipUntilNotifierObserver) (e : Err) :
-    (SkipUntilNotifierObserver.error g e).map (fun r => (absTSkipUntil r.1, r.2)) = some (St2.step (absTSkipUntil g) .b (.error e)) := by
+    (SkipUntilNotifierObserver.error g e).map (fun r => (absTSkipUntil r.1, r.2)) = some (Rs.lift (St2.step (absTSkipUntil g) .b (.error e))) := by
   rcases g with ⟨_ | _, s⟩ <;> rs_tie [SkipUntilNotifierObserver.error, absTSkipUntil, St2.step, St2.guard]
 
 theorem tieT_Su_b_complete (g : SkipUntilNotifierObserver) :
-    (SkipUntilNotifierObserver.complete g).map (fun r => (absTSkipUntil r.1, r.2)) = some (St2.step (absTSkipUntil g) .b .complete) := by
+    (SkipUntilNotifierObserver.complete g).map (fun r => (absTSkipUntil r.1, r.2)) = some (Rs.lift (St2.step (absTSkipUntil g) .b .complete)) := by
   rcases g with ⟨_ | _, s⟩ <;> rs_tie [SkipUntilNotifierObserver.complete, absTSkipUntil, St2.step, St2.guard]
 
 
